@@ -13,7 +13,7 @@ import quaternion
 from .qlib import omul, oherm, oeye, ofro, oadj, osvals, units, lg, EPS, sha
 from .spectral import ortho_units, unitary_units
 
-MAXDIM = 96          # larger operands are counted, not judged (pure-numpy oracle)
+MAXDIM = 160         # larger operands are counted, not judged (pure-numpy oracle)
 
 
 def F(x):
